@@ -1,7 +1,12 @@
 use std::collections::HashMap;
 use std::sync::atomic::Ordering;
 use std::sync::Arc;
+#[cfg(not(metrics_verif))]
 use std::sync::{PoisonError, RwLock};
+#[cfg(metrics_verif)]
+use metrics::verif::sync::RwLock;
+#[cfg(metrics_verif)]
+use std::sync::PoisonError;
 
 use indexmap::IndexMap;
 use metrics::{Counter, Gauge, Histogram, Key, KeyName, Metadata, Recorder, SharedString, Unit};
